@@ -88,7 +88,7 @@ func newTierModel(w *World) *tierModel {
 			}
 		}
 	}
-	m.cacheDyn = w.FnOpt("rux", "Router.cacheDynamicRoute") // optional: the store may be written in line
+	m.cacheDyn = w.FnOpt("rux", "Router.cacheDynamicRoute")   // optional: the store may be written in line
 	m.copyWithParams = w.FnOpt("rux", "Route.copyWithParams") // optional: the copy may be written where it is used
 	m.quick = w.Fn("rux", "Router.QuickMatch")
 	return m
@@ -1268,7 +1268,7 @@ func init() {
 			NotDecided:  []string{"that the generated regexp means what the pattern grammar says ({name}, {name:regex}, [...])", "isFixedPath and the off-by-one arithmetic inside seg (only writer/reader agreement is checked)", "priority among patterns that the grammar makes overlap beyond tier and registration order"},
 			Assumptions: []string{"regexp package semantics", "go/ssa range-loop lowering (#rangeindex) visits elements in ascending order"},
 		},
-		Rules: []ruleFn{{"C01-ACCUM", ruleC01Accum}, {"C01-METHODS", ruleC01Methods}, {"C01-KEYS", ruleC01Keys}, {"C01-TIERS", ruleC01Tiers}, {"C01-REPR", ruleC01Repr}, {"C01-ANCHOR", ruleC01Anchor}, {"C01-GRAMMAR", ruleC01Grammar}, {"C01-SPACE", ruleC01Space}, {"C01-PREFILTER", ruleC01Prefilter}, {"C07-KEY", ruleCacheKey("C07-KEY")}, {"C07-VALUE", ruleC02Cache("C07-VALUE")}, {"C07-NODE", ruleCacheStruct("C07")}},
+		Rules: []ruleFn{{"C01-ACCUM", ruleC01Accum}, {"C01-METHODS", ruleC01Methods}, {"C01-KEYS", ruleC01Keys}, {"C01-TIERS", ruleC01Tiers}, {"C01-REPR", ruleC01Repr}, {"C01-ANCHOR", ruleC01Anchor}, {"C01-GRAMMAR", ruleC01Grammar}, {"C01-SPACE", ruleC01Space}, {"C01-PREFILTER", ruleC01Prefilter}, {"C01-REGEX", ruleC01Regex}, {"C07-KEY", ruleCacheKey("C07-KEY")}, {"C07-VALUE", ruleC02Cache("C07-VALUE")}, {"C07-NODE", ruleCacheStruct("C07")}},
 	})
 	register(&property{
 		Meta: propertyMeta{
@@ -1277,7 +1277,7 @@ func init() {
 			NotDecided:  []string{"values equal the path substrings; values satisfy the variable's regex; empty string for absent optional parts (run-time regexp behaviour)"},
 			Assumptions: []string{"regexp.FindAllStringSubmatch returns 1+NumSubexp entries per match (documented)"},
 		},
-		Rules: []ruleFn{{"C02-ALIGN", ruleC02Align}, {"C02-KEYS", ruleC02Keys}, {"C02-GROUPS", ruleC02Groups}, {"C02-WRITERS", ruleC02Writers}, {"C02-CACHE", ruleC02Cache("C02-CACHE")}, {"C07-NODE", ruleCacheStruct("C07")}, {"C07-KEY", ruleCacheKey("C07-KEY")}, {"C01-ANCHOR", ruleC01Anchor}, {"C01-GRAMMAR", ruleC01Grammar}},
+		Rules: []ruleFn{{"C02-ALIGN", ruleC02Align}, {"C02-KEYS", ruleC02Keys}, {"C02-GROUPS", ruleC02Groups}, {"C02-WRITERS", ruleC02Writers}, {"C02-CACHE", ruleC02Cache("C02-CACHE")}, {"C07-NODE", ruleCacheStruct("C07")}, {"C07-KEY", ruleCacheKey("C07-KEY")}, {"C01-ANCHOR", ruleC01Anchor}, {"C01-GRAMMAR", ruleC01Grammar}, {"C01-REGEX", ruleC01Regex}},
 	})
 }
 
@@ -2012,4 +2012,94 @@ func ruleC01Prefilter(r *Run) {
 		}
 		r.Check(rule, construct, w.InstrPos(call), okAll, map[bool]string{true: "whenever the path begins with the route's literal start (equal length or longer) the regexp is tried on the candidate", false: "the literal-prefix pre-filter rejects a candidate whose start is a prefix of the path: " + why + " (a route such as /api/v1[/{name}] is not found for /api/v1)"}[okAll])
 	}
+}
+
+// ---------------------------------------------------------------------------
+// C01-REGEX: a dynamic route is reported as matching only by its compiled pattern
+
+// ruleC01Regex: the anchored pattern that registration compiled from the route definition is the only
+// statement of the pattern semantics ({name} = one NON-EMPTY segment, custom regexes, '.' literal, optional
+// parts). In the scan function every path on which the verdict can be true must therefore have run a match
+// method of that route's own compiled pattern on the request path; a shortcut that answers "matched" from
+// string comparisons alone re-implements the grammar (and gets the corner cases — empty segment, '.',
+// custom classes — wrong without any existing test noticing).
+func ruleC01Regex(r *Run) {
+	w := r.W
+	rule := "C01-REGEX"
+	r.Floor(rule, 1)
+	m := newTierModel(w)
+	f := m.matchRegex
+	if f == nil || len(f.Params) < 2 {
+		r.Undecided(rule, "(*Route).matchRegex", token.NoPos, "scan function not found")
+		return
+	}
+	recv, pathP := f.Params[0], f.Params[1]
+	isScan := func(in ssa.Instruction, pred map[*ssa.BasicBlock]*ssa.BasicBlock) bool {
+		c, ok := in.(*ssa.Call)
+		if !ok {
+			return false
+		}
+		n := calleeName(c)
+		if !strings.HasPrefix(n, "(*regexp.Regexp).Match") && !strings.HasPrefix(n, "(*regexp.Regexp).Find") {
+			return false
+		}
+		if len(c.Call.Args) < 2 {
+			return false
+		}
+		rx := resolveAlong(c.Call.Args[0], pred)
+		acc := unwrapAddr(rx)
+		if acc.Base != ssa.Value(recv) || len(acc.Fields) != 1 || acc.Fields[0] != m.regex {
+			return false
+		}
+		arg := resolveAlong(c.Call.Args[1], pred)
+		return flowsFromDeep(arg, func(v ssa.Value) bool { return v == ssa.Value(pathP) })
+	}
+	n := 0
+	eachInstr(f, func(in ssa.Instruction) {
+		ret, ok := in.(*ssa.Return)
+		if !ok || len(ret.Results) != 2 {
+			return
+		}
+		n++
+		construct := fmt.Sprintf("%s:return#%d", FuncName(f), n)
+		paths, complete := enumPaths(f, ret, 4096)
+		if !complete {
+			r.Undecided(rule, construct, w.InstrPos(ret), "too many paths")
+			return
+		}
+		bad := ""
+		nTrue := 0
+		for _, p := range paths {
+			okv := resolveAlong(ret.Results[1], p.pred)
+			allFalse := true
+			for _, lf := range valueLeaves(okv) {
+				if c, isC := lf.(*ssa.Const); !isC || c.Value == nil || c.Value.String() != "false" {
+					allFalse = false
+				}
+			}
+			if allFalse {
+				continue
+			}
+			nTrue++
+			scanned := false
+			for _, b := range p.blocks {
+				for _, x := range b.Instrs {
+					if x == in {
+						break
+					}
+					if isScan(x, p.pred) {
+						scanned = true
+					}
+				}
+			}
+			if !scanned && bad == "" {
+				bad = fmt.Sprintf("a path (%d blocks) returns a verdict that can be true without having matched the route's compiled pattern against the path", len(p.blocks))
+			}
+		}
+		if nTrue == 0 {
+			r.Check(rule, construct, w.InstrPos(ret), true, "the verdict is false on every path to this return")
+			return
+		}
+		r.Check(rule, construct, w.InstrPos(ret), bad == "", map[bool]string{true: fmt.Sprintf("on each of the %d path(s) on which the verdict can be true, r.regex was matched against the request path", nTrue), false: bad + ": the grammar ({name} = one non-empty segment, custom regexes, '.' literal, optional parts) is stated by the compiled pattern only, a shortcut re-implements it"}[bad == ""])
+	})
 }
